@@ -245,7 +245,7 @@ func (c *Chain) Project(ctx sdk.Context) map[string]any {
 			"fundPaid": is(m.FundingFeePaidCustody), "fundRecv": is(m.FundingFeeReceivedCustody),
 			"tpCustody": is(m.TakeProfitCustody), "tpLiab": is(m.TakeProfitLiabilities),
 			"health": ds(m.MtpHealth), "stopLoss": ds(m.StopLossPrice), "takeProfit": ds(m.TakeProfitPrice), "openPrice": ds(m.OpenPrice),
-			"probeHealth": probeMtpHealth(c, pctx, m)}
+			"probeHealth": probeMtpHealth(c, pctx, m), "plainHealth": plainMtpHealth(c, pctx, m)}
 	}
 	st["perp"] = map[string]any{"pools": ppools, "mtps": mtps, "openCount": int64(a.PerpetualKeeper.GetOpenMTPCount(ctx)),
 		"safetyFactor": ds(pp.SafetyFactor), "tpFlag": pp.EnableTakeProfitCustodyLiabilities}
@@ -419,6 +419,26 @@ func probeMtpHealth(c *Chain, ctx sdk.Context, m perpetualtypes.MTP) (out string
 		if err := c.App.PerpetualKeeper.SettleFunding(cc, &m, &pool, ap); err != nil {
 			return "-1"
 		}
+	}
+	h, err := c.App.PerpetualKeeper.GetMTPHealth(cc, m, ap, "uusdc")
+	if err != nil {
+		return "-1"
+	}
+	return ds(h)
+}
+
+// plainMtpHealth: the real health function on the position exactly as stored (unpaid interest counts as a liability, nothing
+// is settled): what "an open leaves the position with health above the safety factor" is measured with.
+func plainMtpHealth(c *Chain, ctx sdk.Context, m perpetualtypes.MTP) (out string) {
+	defer func() {
+		if r := recover(); r != nil {
+			out = "-1"
+		}
+	}()
+	cc, _ := ctx.CacheContext()
+	ap, ok := c.App.AmmKeeper.GetPool(cc, m.AmmPoolId)
+	if !ok {
+		return "-1"
 	}
 	h, err := c.App.PerpetualKeeper.GetMTPHealth(cc, m, ap, "uusdc")
 	if err != nil {
